@@ -1,5 +1,3 @@
-//go:build wqos
-
 package main
 
 import (
@@ -439,6 +437,7 @@ type qosCfg struct {
 	script  string
 	steps   int
 	sleepy  bool
+	word    []byte // exhaustive stream: a word over the symbolic alphabet a..g
 }
 
 // runHistory runs one history and returns its case (nil if a step straddled a second boundary or the broker hung).
@@ -462,6 +461,9 @@ func runQosHistory(seed int64, c qosCfg, trace bool) sx.V {
 	q.connectS(c.v5, c.clean, c.sei, c.rm)
 	q.subscribeS()
 	q.runScript(c)
+	for _, sym := range c.word {
+		q.symbolic(c, sym)
+	}
 	for i := 0; i < c.steps && !b.Hung; i++ {
 		q.randomStep(c)
 	}
@@ -571,6 +573,52 @@ func (q *qosRun) runScript(c qosCfg) {
 	}
 }
 
+// symbolic executes one letter of the small alphabet of the exhaustive stream.
+func (q *qosRun) symbolic(c qosCfg, sym byte) {
+	if !q.sConnected() {
+		q.reconnect(c, false)
+		return
+	}
+	switch sym {
+	case 'a':
+		q.publishP(0, 0, 1, 0)
+	case 'b':
+		q.publishP(0, 0, 2, 0)
+	case 'c':
+		if len(q.pend) > 0 {
+			q.ackNext(0, 0)
+		} else {
+			q.pingS()
+		}
+	case 'd':
+		pid := q.freshPid()
+		if len(q.pend) > 0 {
+			pid = q.pend[0].pid
+		}
+		for _, o := range q.open2 {
+			if o.pid == pid {
+				pid = q.freshPid()
+			}
+		}
+		q.publishS(1, pid, false, 0)
+	case 'e':
+		if len(q.open2) > 0 {
+			q.publishS(2, q.open2[0].pid, true, q.open2[0].uid)
+		} else {
+			q.publishS(2, q.freshPid(), false, 0)
+		}
+	case 'f':
+		if len(q.open2) > 0 {
+			q.ackS(packets.Pubrel, q.open2[0].pid, 0)
+		} else {
+			q.pingS()
+		}
+	case 'g':
+		q.disconnectS(false)
+		q.reconnect(c, false)
+	}
+}
+
 func (q *qosRun) randomStep(c qosCfg) {
 	r := q.rng
 	if !q.sConnected() {
@@ -638,6 +686,10 @@ func (q *qosRun) randomStep(c qosCfg) {
 			return
 		}
 		o := q.open2[r.Intn(len(q.open2))]
+		if !o.rec && r.Intn(8) != 0 { // a PUBREL normally follows the PUBREC
+			q.publishS(2, o.pid, true, o.uid)
+			return
+		}
 		q.ackS(packets.Pubrel, o.pid, 0)
 	case k < 89: // an acknowledgement with a stray identifier / of the wrong kind
 		ty := []byte{packets.Puback, packets.Pubrec, packets.Pubrel, packets.Pubcomp}[r.Intn(4)]
@@ -706,6 +758,24 @@ func engQos(seed int64, tier string, args []string, out *sx.Out) {
 	}
 	if only != "" {
 		return
+	}
+	// exhaustive stream: every word of length wlen over the alphabet a..g (receive maxima 1 / 2)
+	wlen := 3
+	if tier == "thorough" {
+		wlen = 4
+	}
+	total := 1
+	for i := 0; i < wlen; i++ {
+		total *= 7
+	}
+	for n := 0; n < total; n++ {
+		w := make([]byte, wlen)
+		for i, m := 0, n; i < wlen; i, m = i+1, m/7 {
+			w[i] = byte('a' + m%7)
+		}
+		c := base
+		c.srvrm, c.word = 2, w
+		emit(c)
 	}
 	// the same scripts on an MQTT 3.1.1 session
 	for _, s := range scripts {
